@@ -487,6 +487,37 @@ Proof.
   rewrite E in S1. rewrite E1, E2. f_equal. eapply field_spec_functional; eassumption.
 Qed.
 
+(* a key that is present - whatever its value, in any state, without any hypothesis - is never reported missing *)
+Lemma dispatch_not_missing sites : forall fuel top codec k s x t,
+  snd (dispatch sites fuel top codec k s x t) <> OMissing.
+Proof.
+  induction fuel as [|f IH]; intros top codec k s x t; cbn [dispatch]; [discriminate|].
+  destruct (negb (site_ok s (length (classes x)))); [discriminate|].
+  assert (ENTER: forall x1 c,
+    snd (match config_site sites c with
+         | None => (x1, OInst c)
+         | Some (j, sj) => if s_field sj
+                           then dispatch sites f top codec (if codec then (top, S c) else (j, 0)) sj x1 t
+                           else (x1, ONotFound)
+         end) <> OMissing).
+  { intros x1 c. destruct (config_site sites c) as [[j sj]|]; [|discriminate].
+    destruct (s_field sj); [apply IH | discriminate]. }
+  destruct (reg_get t (get_reg k (regs x))); [apply ENTER|].
+  destruct (reg_get t (refill (classes x) s (get_reg k (regs x)))); [apply ENTER | discriminate].
+Qed.
+
+Theorem present_key_not_missing acc sites x i t present :
+  snd (step acc sites x (Decode i (Some t) present)) <> Some OMissing.
+Proof.
+  cbn [step]. destruct (nth_error sites i) as [s|]; [|discriminate].
+  destruct (negb (site_ok s (length (classes x)))); [discriminate|].
+  destruct (s_field s).
+  2:{ cbn [snd]. unfold decode_nofield. destruct (find_map _ _); discriminate. }
+  pose proof (dispatch_not_missing sites (S (S (length (classes x)))) i (s_codec s) (i, 0) s x t) as H.
+  destruct (dispatch sites (S (S (length (classes x)))) i (s_codec s) (i, 0) s x t) as [x' o].
+  cbn [snd] in *. intros E. apply H. congruence.
+Qed.
+
 Theorem missing_tag acc sites pre i s present :
   nth_error sites i = Some s -> s_field s = true -> site_ok s (length (defs pre)) = true ->
   step acc sites (final acc sites pre) (Decode i None present) = (final acc sites pre, Some OMissing).
